@@ -237,6 +237,7 @@ func vStringRoundTrip(max int) {
 // verif:bounds every valid UTF-8 byte string of length 0..2 (all byte values symbolic)
 // verif:outside invalid UTF-8 (documented lossy replacement, issue #3455); backtick strings; Lexer.fill/refill from a reader
 // verif:unwind 40
+// verif:solver z3-new
 func VerifH_C02_O2_string() {
 	vStringRoundTrip(2)
 }
@@ -245,6 +246,7 @@ func VerifH_C02_O2_string() {
 // verif:bounds every valid UTF-8 byte string of length 0..3
 // verif:tier thorough
 // verif:unwind 48
+// verif:solver z3-new
 func VerifH_C02_O2_string_thorough() {
 	vStringRoundTrip(3)
 }
@@ -261,6 +263,7 @@ func vASCII(name string, max int) string {
 // verif:bounds every ASCII string s of length 0..3 (bytes symbolic, < 0x80)
 // verif:outside non-ASCII names (unicode tables); the quoted branch is the O2 kernel and is also executed here
 // verif:unwind 40
+// verif:solver z3-new
 func VerifH_C02_O3_fieldname() {
 	s := vASCII("s", 3)
 	q := QuotedName(s)
@@ -287,6 +290,7 @@ func VerifH_C02_O3_fieldname() {
 // verif:bounds every ASCII string s of length 1..3 that zed.Context.LookupTypeNamed accepts (not a primitive type name); delimiter in {')','='}
 // verif:outside non-ASCII names; the empty type name (zed.Context.LookupTypeNamed accepts it but the ZSON grammar cannot express it: "1(=)" does not parse); the keywords "error"/"enum" (longer than the bound)
 // verif:unwind 40
+// verif:solver z3-new
 func VerifH_C02_O3_typename() {
 	s := vASCII("s", 3)
 	// the ZSON grammar has no empty type name (Parser.parseDecorator rejects
